@@ -546,6 +546,10 @@ func TestCheck(t *testing.T) {
 	ctx := context.Background()
 	n := int64(cfg.Pick(600, 1200))
 	rep.Cases(n, func(idx int64, rng *mon.Rand) {
+		if idx%16 == 5 {
+			deadEndCase(ctx, rep, rng, cfg)
+			return
+		}
 		if idx%8 == 7 {
 			// edge_branch_test.go: a plain edge and a branch between the same pair of nodes
 			edgeBranchCase(ctx, rep, rng, cfg, idx == 7)
